@@ -3458,6 +3458,10 @@ impl RaftNode {
 
         // Install the snapshot
         let mut persistent = self.persistent.write();
+        // A restart rebuilds the log from the WAL alone, so the installed entries are
+        // logged BEFORE the in-memory log is replaced; otherwise the node would come
+        // back with its pre-snapshot log and without entries it has acknowledged since.
+        self.persist_installed_log(&persistent, &entries)?;
         // Replace log with entries from snapshot - reset base since we have
         // a complete set of entries starting from index 1
         persistent.log = entries;
@@ -3492,6 +3496,47 @@ impl RaftNode {
             *peers = metadata.config;
         }
 
+        Ok(())
+    }
+
+    /// Log the entries of a snapshot that is about to replace the in-memory log, the way
+    /// `append_leader_entries` logs appended entries: nothing for entries the local log
+    /// already holds, a truncation at the first conflicting index, every entry behind the
+    /// local log; a local log that is longer than the snapshot is cut behind it. Entries
+    /// compacted away locally are covered by an earlier snapshot of the same prefix.
+    fn persist_installed_log(
+        &self,
+        persistent: &PersistentState,
+        entries: &[LogEntry],
+    ) -> Result<()> {
+        let Some(ref wal) = self.wal else {
+            return Ok(());
+        };
+        let log_truncate = |from_index: u64| -> Result<()> {
+            wal.lock()
+                .append(&crate::raft_wal::RaftWalEntry::LogTruncate { from_index })
+                .map_err(|e| ChainError::StorageError(format!("WAL log truncate failed: {e}")))
+        };
+
+        // Length of the log as the WAL replays it while the records below are written
+        let mut logged_len = persistent.array_len_as_log_index();
+        for entry in entries {
+            if entry.index > logged_len {
+                self.persist_log_entry(entry)?;
+                logged_len = entry.index;
+            } else if let Some(arr_idx) = persistent.log_index_to_array_index(entry.index) {
+                if arr_idx < persistent.log.len() && persistent.log[arr_idx].term != entry.term {
+                    log_truncate(entry.index)?;
+                    self.persist_log_entry(entry)?;
+                    logged_len = entry.index;
+                }
+            }
+        }
+        if let Some(last) = entries.last() {
+            if logged_len > last.index {
+                log_truncate(last.index + 1)?;
+            }
+        }
         Ok(())
     }
 
